@@ -13,6 +13,7 @@ import bisect
 import itertools
 import json
 import math
+import warnings
 
 from .. import impl_l1d as I
 from ..core import Check
@@ -39,8 +40,8 @@ class Snap:
 
     def __init__(self, l):
         self.lo, self.hi = float(l.bounds[0]), float(l.bounds[1])
-        self.known = set(l.data)
-        self.pend = set(l.pending_points)
+        self.known = {float(x) for x in l.data}
+        self.pend = {float(x) for x in l.pending_points}
         self.lc = dict(l.losses_combined)
         self.real = dict(l.losses)
         self.dx_eps = 2 * max(abs(self.lo), abs(self.hi)) * 2.0 ** -52
@@ -56,7 +57,7 @@ class Snap:
         res = []
         for a, b in zip(self.P[:-1], self.P[1:]):
             outer = (a == self.lo and self.lo in self.missing) or (b == self.hi and self.hi in self.missing)
-            res.append((a, b, INF if outer else self.lc.get((a, b), INF)))
+            res.append((a, b, INF if outer else float(self.lc.get((a, b), INF))))
         return res
 
 
@@ -434,8 +435,8 @@ def run_case(cfg, rng=None, nstate=0, ops=None, prefix=(), plan=None):
 
     def execute(op):
         """returns True when the op changed the state"""
-        R.ophist[op[0] if op[0] != "ask" else ("ask_commit" if op[2] else "ask_probe")] = \
-            R.ophist.get(op[0] if op[0] != "ask" else ("ask_commit" if op[2] else "ask_probe"), 0) + 1
+        kind = op[0] if op[0] != "ask" else ("ask_commit" if op[2] else "ask_probe")
+        R.ophist[kind] = R.ophist.get(kind, 0) + 1
         if op[0] != "ask":
             batch = is_batch(l, op)
             had_pending = bool(l.pending_points)
@@ -524,6 +525,7 @@ def run_case(cfg, rng=None, nstate=0, ops=None, prefix=(), plan=None):
 
 # ================================================================== the check
 def run(chk: Check) -> int:
+    warnings.filterwarnings("ignore", category=RuntimeWarning)      # log(0) inside abs_min_log_loss
     if THEOREMS:
         chk.prove(VO_TARGETS, THEOREMS)
     else:       # placeholder until the proof builder lists the theorems (Check.prove cannot audit an empty list)
@@ -532,8 +534,8 @@ def run(chk: Check) -> int:
         if rc != 0:
             chk.broke("proof", "build of " + " ".join(VO_TARGETS) + " failed", "\n".join(out.splitlines()[-25:]))
     quick = chk.quick
-    ncases = 150 if quick else 1500
-    maxstate = 22 if quick else 60
+    ncases = 320 if quick else 1500
+    maxstate = 25 if quick else 60
     cases, metas = [], []
     tot = {"feats": {}, "nhist": {}, "Nhist": {}, "ophist": {}, "asks": 0, "brute": 0, "threshold": 0, "scripted": {},
            "skipped_overflow": 0, "clauses": {}}
@@ -580,7 +582,7 @@ def run(chk: Check) -> int:
             cfg = fix_cfg(cfg)
         all_n = (not quick) and k % 8 == 0
         nstate = rng.randint(2, maxstate if not all_n else 14)
-        plan = ProbePlan(rng, per_state=4 if quick else rng.choice([4, 6, 9]), all_n=all_n)
+        plan = ProbePlan(rng, per_state=5 if quick else rng.choice([4, 6, 9]), all_n=all_n)
         try:
             l, rec, R = run_case(cfg, rng, nstate, prefix=prefix, plan=plan)
         except OverflowError:
